@@ -430,7 +430,7 @@ Definition chk_C09 (btab : list (fnid * list outcome)) (h : history) (obs : list
 Definition chk_C08 := chk_prov.
 Definition chk_C10 (btab : list (fnid * list outcome)) (h : history) (obs : list oobs) : list viol :=
   chk_prov btab h obs ++ chk_C02 h obs.
-Definition chk_C11 (btab : list (fnid * list outcome)) (h : history) (obs : list oobs) : list viol :=
+Definition chk_C11_base (btab : list (fnid * list outcome)) (h : history) (obs : list oobs) : list viol :=
   chk_prov btab h obs ++ chk_C03 h obs.
 Definition chk_C12 (btab : list (fnid * list outcome)) (h : history) (obs : list oobs) : list viol :=
   walk (fun r _ o ob => chk_keys_op r o ob) 0 reg0 [] h obs ++ chk_prov btab h obs ++ chk_C02 h obs.
@@ -627,6 +627,88 @@ Definition chk_C16 (h : history) (perm : list nat) (obsA obsB : list oobs) : lis
                    else [])
               | _, _, _ => [(i, 1603)]
               end) (combine (seq 0 (length perm)) perm).
+
+(* =====================================================================
+   C11, last clause: a soft group contains the members contributed by the
+   constructors that the OTHER fields of the same parameter object require
+   ===================================================================== *)
+
+(* parallel to decl_leaves: for a soft-group leaf, the non-soft leaves of the
+   fields of its own (immediate) parameter object; [] for every other leaf *)
+Fixpoint soft_siblings (p : param) (sibs : list pleaf) : list (list pleaf) :=
+  match p with
+  | PSingle _ _ => [[]]
+  | PGroup _ true => [sibs]
+  | PGroup _ false => [[]]
+  | PObj fs =>
+      let mine := (fix go (l : list param) : list pleaf :=
+                     match l with
+                     | [] => []
+                     | f :: t => (if is_soft_group f then [] else decl_leaves f) ++ go t
+                     end) fs in
+      (fix go (l : list param) : list (list pleaf) :=
+         match l with
+         | [] => []
+         | f :: t => soft_siblings f mine ++ go t
+         end) fs
+  end.
+
+Definition soft_siblings_list (ps : list param) : list (list pleaf) :=
+  flat_map (fun p => soft_siblings p []) ps.
+
+(* code 152: a soft group lacks a member of a constructor required by another
+   field of the same parameter object.  Only for keys no enclosing scope
+   decorates, as the property says. *)
+Section SoftSib.
+  Variable btab : list (fnid * list outcome).
+  Variable r : registry.
+
+  Definition required_ctors (cn : consumer) (sib : pleaf) : list sctor :=
+    match sib with
+    | LSingle k _ =>
+        match decorators_on_path r (cn_view cn) k (cn_self cn), nearest_provider r (cn_view cn) k with
+        | [], Some c => [c]
+        | _, _ => []
+        end
+    | LGroup k false =>
+        match decorators_on_path r (cn_view cn) k (cn_self cn) with
+        | [] => feeders r (cn_view cn) k
+        | _ => []
+        end
+    | LGroup _ true => []
+    end.
+
+  Fixpoint chk_soft_args (log : list lentry) (cn : consumer) (ls : list pleaf) (sibs : list (list pleaf))
+           (args : list arg) : list nat :=
+    match ls, sibs, args with
+    | LGroup k true :: ls', sb :: sibs', ASlice l :: args' =>
+        (match decorators_on_path r (cn_view cn) k (cn_self cn) with
+         | [] =>
+             let need := filter (fun c => feeds_group c k && encloses r (sc_home c) (cn_view cn))
+                                (flat_map (required_ctors cn) sb) in
+             guardb (subsetb atom_eqb (flat_map (members_of btab log k) need) l) 152
+         | _ => []
+         end) ++ chk_soft_args log cn ls' sibs' args'
+    | _ :: ls', _ :: sibs', _ :: args' => chk_soft_args log cn ls' sibs' args'
+    | _, _, _ => []
+    end.
+
+  Definition chk_soft_event (o : op) (log : list lentry) (ev : event) : list nat :=
+    match ev with
+    | EExec f e rl args _ =>
+        match find_consumer r o f rl with
+        | Some cn => chk_soft_args log cn (sig_leaves (cn_sig cn)) (soft_siblings_list (fs_params (cn_sig cn))) args
+        | None => []
+        end
+    | ECallback _ _ _ => []
+    end.
+End SoftSib.
+
+Definition chk_soft_sib (btab : list (fnid * list outcome)) (h : history) (obs : list oobs) : list viol :=
+  walk (fun r log o ob => walk_events (chk_soft_event btab r o) log (oo_events ob)) 0 reg0 [] h obs.
+
+Definition chk_C11 (btab : list (fnid * list outcome)) (h : history) (obs : list oobs) : list viol :=
+  chk_C11_base btab h obs ++ chk_soft_sib btab h obs.
 
 (* =====================================================================
    All single-run checkers on one case, tagged with the property number
